@@ -131,6 +131,7 @@ def build(d, route):
 
 ROUTES = ["ctor", "token", "token_lead", "terminal", "deepcopy", "elements", "molgen"]
 _CACHE = {}
+BUILD_ERRORS = []
 
 
 def objects(tier):
@@ -140,7 +141,11 @@ def objects(tier):
     objs = []
     for d in uni:
         for r in ROUTES:
-            o = build(d, r)
+            try:
+                o = build(d, r)
+            except Exception as e:  # noqa  (reported as a violation by the 'routes' case, not a harness failure)
+                BUILD_ERRORS.append((d, r, f"{type(e).__name__}: {str(e)[:80]}"))
+                continue
             if o is not None:
                 objs.append((d, r, o))
     _CACHE[tier] = (uni, objs)
@@ -253,5 +258,7 @@ def eval_case(kind, data):
         res["evals"] = n
         res["nontrivial"] = ["filter", n]
         res["sample"] = {"filter_queries": n, "universe_objects": len(lst)}
+        for d, r, err in BUILD_ERRORS[:5]:
+            viol(res, f"C03|construction-route-raises|{r}", f"building {d[2]}{text_of(d)} through route {r} raises {err}", {"d": d, "route": r})
         return res
     raise ValueError(kind)
